@@ -914,17 +914,26 @@ func (fc *FnCtx) frameCond(st *State, name string, targets []modTarget) string {
 		case strings.HasPrefix(name, "M$"):
 			var ex []string
 			var inner []string
+			var sl []Val
 			for _, t := range targets {
 				if t.kind != "elems" {
 					continue
 				}
 				et := t.slice.T.Underlying().(*types.Slice).Elem()
 				b, _ := fc.addrBase(&Addr{Kind: AElem, Base: t.slice.Arr, Idx: "0", ElemT: et, T: et})
-				if name == b || strings.HasPrefix(name, b+".") {
-					ex = append(ex, tEq("r", t.slice.Arr))
-					lo, hi := t.slice.Off, tAdd(t.slice.Off, t.slice.Len)
-					inner = append(inner, "(forall ((j Int)) (=> (or (< j "+lo+") (>= j "+hi+")) (= (select (select "+cur+" "+t.slice.Arr+") j) (select (select "+old+" "+t.slice.Arr+") j))))")
+				if name == b || strings.HasPrefix(name, b+".") || strings.HasPrefix(name, b) && strings.HasSuffix(b, "$") {
+					sl = append(sl, t.slice)
 				}
+			}
+			for _, a := range sl {
+				ex = append(ex, tEq("r", a.Arr))
+				// j is outside every declared range that lives in the same array
+				var outs []string
+				for _, b := range sl {
+					out := "(or (< j " + b.Off + ") (>= j " + tAdd(b.Off, b.Len) + "))"
+					outs = append(outs, tImp(tEq(b.Arr, a.Arr), out))
+				}
+				inner = append(inner, "(forall ((j Int)) (=> "+tAnd(outs...)+" (= (select (select "+cur+" "+a.Arr+") j) (select (select "+old+" "+a.Arr+") j))))")
 			}
 			cond = tAnd(append([]string{"(forall ((r Int)) (=> (and (select " + alloc0 + " r) " + tNot(tOr(ex...)) + ") (= (select " + cur + " r) (select " + old + " r))))"}, inner...)...)
 		case strings.HasPrefix(name, "MD$"), strings.HasPrefix(name, "MV$"), name == "ML$":
